@@ -7,6 +7,7 @@
 #include "simsched.h"
 #include "simstream.h"
 #include <pthread.h>
+#include <signal.h>
 #include <memory>
 
 struct TSinkRec { std::string data; };
@@ -178,6 +179,8 @@ void do_work(Work& w) {
     }
 }
 
+void sentinel_handler(int) {}
+
 void* thread_main(void* p) {
     Work* w = static_cast<Work*>(p);
     sched::thread_enter(w->id);
@@ -237,9 +240,18 @@ void sim::engine_threads(RunCtx& cx) {
         w.result = F.exists(path) ? F.get(path) : "<missing " + path + ">";
         F.dir.erase(path);
     };
-    // ---- the same work alone, sequentially ------------------------------------------------------------------------------
-    for (auto& w : solo) { do_work(w); collect(w); }
-    // ---- concurrently under the scheduler ---------------------------------------------------------------------------------
+    // process-wide state the library has no business changing: signal dispositions (a sentinel handler is installed for SIGPIPE)
+    // and the working directory — compared after the threads have run
+    static const int SIGS[] = {SIGPIPE, SIGHUP, SIGINT, SIGTERM, SIGUSR1, SIGUSR2, SIGCHLD, SIGXFSZ};
+    struct sigaction before[8], sentinel;
+    memset(&sentinel, 0, sizeof sentinel);
+    sentinel.sa_handler = sentinel_handler;
+    sigemptyset(&sentinel.sa_mask);
+    struct sigaction old_pipe;
+    sigaction(SIGPIPE, &sentinel, &old_pipe);
+    for (int i = 0; i < 8; i++) sigaction(SIGS[i], nullptr, &before[i]);
+    // ---- concurrently under the scheduler (FIRST: whatever the library initialises on first use is then initialised by several
+    //      threads at once in the first run of every worker process) ---------------------------------------------------------
     sched::begin(mix_str(cx.seed, "schedule"), (unsigned)conc.size(), maxq);
     std::vector<pthread_t> th(conc.size());
     pthread_attr_t attr;
@@ -250,6 +262,16 @@ void sim::engine_threads(RunCtx& cx) {
     for (unsigned i = 0; i < conc.size(); i++) pthread_join(th[i], nullptr);
     pthread_attr_destroy(&attr);
     for (auto& w : conc) collect(w);
+    for (int i = 0; i < 8; i++) {
+        struct sigaction now;
+        sigaction(SIGS[i], nullptr, &now);
+        if (now.sa_handler != before[i].sa_handler || now.sa_flags != before[i].sa_flags)
+            cx.violation("C20", "C20/I29/process-wide-state-changed/signal-disposition", "the disposition of signal " + std::to_string(SIGS[i]) + " differs after the threads have run (the library changed process-wide state)");
+    }
+    sigaction(SIGPIPE, &old_pipe, nullptr);
+    // ---- the same work alone, sequentially ------------------------------------------------------------------------------
+    F.reset();
+    for (auto& w : solo) { do_work(w); collect(w); }
     cx.log.ev("SCHED switches=" + std::to_string(sched::switches()) + " blocks=" + std::to_string(sched::blocks()) + " hash=" + std::to_string(sched::switch_hash()));
     cx.ctr->add("context_switches", sched::switches());
     cx.ctr->add("basic_blocks_scheduled", sched::blocks());
